@@ -4,7 +4,7 @@
 PROPERTIES = {
     "C01": {"category": "exploration",
             "technique": "online DiffHook trace monitor (protocol/coverage/equality/carried-index assertions) + metamorphic sub-range shift check + red-zone Index carriers, over bounded-exhaustive and seeded random inputs; checked-arithmetic build turns overflow/OOB into observable panics",
-            "level_text": "Runtime monitoring of real executions: every callback of every run is checked online by a trace monitor sitting where a user hook sits; complete for all pairs over a 3-letter alphabet up to length 5 (thorough 6; binary up to 8) and all sub-ranges of all pairs up to length 4, sampled beyond (random pairs up to 400 items, near-identical inputs up to 70 000 items, edit distances of thousands, LCS on 4200x4100 unrelated items, deadline expiring at check 0/1, a cross-type tolerance comparison that is not transitive). Right level because the property is a forall over inputs/ranges/Index implementations that only an oracle-carrying monitor run over many executions can probe; no proof is claimed. Also: two different lookup types viewing one object at one address, non-reflexive items (f64 NaN) in a buffer that is old and new at once, ranges given with start > end (empty at start).",
+            "level_text": "Runtime monitoring of real executions: every callback of every run is checked online by a trace monitor sitting where a user hook sits; complete for all pairs over a 3-letter alphabet up to length 5 (thorough 6; binary up to 8) and all sub-ranges of all pairs up to length 4, sampled beyond (random pairs up to 400 items, near-identical inputs up to 70 000 items, edit distances of thousands, LCS on 4200x4100 unrelated items, deadline expiring at check 0/1, a cross-type tolerance comparison that is not transitive). Right level because the property is a forall over inputs/ranges/Index implementations that only an oracle-carrying monitor run over many executions can probe; no proof is claimed. Also: two different lookup types viewing one object at one address, non-reflexive items (f64 NaN) in a buffer that is old and new at once, ranges given with start > end (empty at start). Session 3: stack depth - thousands of nested Patience anchors, unrelated inputs and thousands of hunks in an UNOPTIMISED build on 2 MiB worker stacks (small-stack stage).",
             "level_note": "Trusts the trace monitor, the StrictLookup red-zone carrier and rustc/std. Says nothing about inputs outside the enumerated bound except the sampled ones.",
             "anchor_files": ["src/algorithms/myers.rs", "src/algorithms/patience.rs", "src/algorithms/lcs.rs", "src/algorithms/utils.rs", "src/algorithms/mod.rs"],
             "assumptions": ["inputs beyond the enumerated bound are only sampled", "the trace monitor and its red-zone lookups are themselves correct (validated by seeded mutants, see DESIGN.md)"]},
@@ -15,12 +15,12 @@ PROPERTIES.update({
     "C02": {"category": "fault_enumeration",
             "anchor_files": CAPT_FILES,
             "technique": "offline op-list checker (left-to-right walk + independent apply/inverse-apply) over captured diffs; virtual-clock fault injection enumerating every deadline-check index",
-            "level_text": "Every captured op list is walked by an independent checker and additionally applied forwards and backwards on real vectors. Inputs: all pairs over 3 letters up to length 5 x 3 algorithms x 3 capture entry points, all sub-ranges of all short pairs, sampled longer pairs, long inputs (near-identical up to 70 000 items, edit distances of thousands, runs of thousands of identical items, distinct-item counts crossing 256/1024/4096/65 536 through the integer mapping of TextDiff, borrowed-hook and IdentifyDistinct pipelines, non-transitive cross-type equality); for each, the deadline is made to expire at EVERY deadline check (hook H2 virtual clock) - a fault sequence no test can produce with real time. Also: item values with sorted structure around 1024/2048 items, reversed-empty ranges, a user-defined text type (OddStr) as entry point, the capture hook without the compaction stage under every expiry point, and the ratio on real sequences of 2^24+4 / 2^25+6 items and on hand-built op lists up to 2^62 items.",
+            "level_text": "Every captured op list is walked by an independent checker and additionally applied forwards and backwards on real vectors. Inputs: all pairs over 3 letters up to length 5 x 3 algorithms x 3 capture entry points, all sub-ranges of all short pairs, sampled longer pairs, long inputs (near-identical up to 70 000 items, edit distances of thousands, runs of thousands of identical items, distinct-item counts crossing 256/1024/4096/65 536 through the integer mapping of TextDiff, borrowed-hook and IdentifyDistinct pipelines, non-transitive cross-type equality); for each, the deadline is made to expire at EVERY deadline check (hook H2 virtual clock) - a fault sequence no test can produce with real time. Also: item values with sorted structure around 1024/2048 items, reversed-empty ranges, a user-defined text type (OddStr) as entry point, the capture hook without the compaction stage under every expiry point, and the ratio on real sequences of 2^24+4 / 2^25+6 items and on hand-built op lists up to 2^62 items. Session 3: lopsided boxes needing more than 4096 search rounds, LCS on 1100..2600 unrelated items per side, more than 10 000 raw edit calls, moved blocks, a frequent token between one-sided runs, re-used hook stacks, empty and long caller-supplied tokens.",
             "level_note": "Trusts the op-list checker, the virtual clock hook (H2, 10 lines in deadline_support.rs/verif_hooks.rs) and rustc/std. Expiry points are exhaustive only where the number of checks is <= 64, sampled (12 per input) otherwise."},
     "C03": {"category": "exploration",
             "anchor_files": ["src/algorithms/myers.rs", "src/algorithms/lcs.rs", "src/algorithms/compact.rs", "src/common.rs"],
             "technique": "differential check of the observed edit cost (raw callback stream and captured ops) and ratio against an O(NM) LCS dynamic program",
-            "level_text": "Cost of the raw stream and of the captured ops, total Equal length and the f32 ratio are compared with an independent DP on every execution: complete for all pairs over 3 letters up to length 5 (thorough 6) and all sub-ranges of short pairs, sampled up to 150 items, plus long inputs (near-identical and far-apart pairs up to 3000 items against the DP; optimum known by construction at 65 536 distinct items). Minimality is a forall-inputs claim with a cheap exact oracle, so differential monitoring is the natural level. Also: sorted-value windows with the optimum known by construction, and the deadline-free text entry points under a virtual clock on which any deadline would have expired.",
+            "level_text": "Cost of the raw stream and of the captured ops, total Equal length and the f32 ratio are compared with an independent DP on every execution: complete for all pairs over 3 letters up to length 5 (thorough 6) and all sub-ranges of short pairs, sampled up to 150 items, plus long inputs (near-identical and far-apart pairs up to 3000 items against the DP; optimum known by construction at 65 536 distinct items). Minimality is a forall-inputs claim with a cheap exact oracle, so differential monitoring is the natural level. Also: sorted-value windows with the optimum known by construction, and the deadline-free text entry points under a virtual clock on which any deadline would have expired. Session 3: moved blocks of unique items across shorter ordered runs, a frequent token between one-sided runs above 100 tokens, more than 10 000 raw edits, lopsided deep boxes with the optimum known by construction.",
             "level_note": "Trusts the 10-line DP reference (lcs_len) and the op-list walk. Patience is excluded by the property itself."},
     "C09": {"category": "fault_enumeration",
             "anchor_files": ["src/algorithms/replace.rs", "src/algorithms/compact.rs", "src/common.rs", "src/algorithms/lcs.rs"],
@@ -30,7 +30,7 @@ PROPERTIES.update({
     "C11": {"category": "fault_enumeration",
             "anchor_files": ["src/algorithms/compact.rs", "src/types.rs", "src/algorithms/replace.rs"],
             "technique": "offline carried-index checker over captured diffs (every expiry point), with hook-based attribution of failures to the listed known finding KF1 (swap-repair switch H3)",
-            "level_text": "Both indices of every captured op are compared with the running item counts. The pinned tree violates this on ~13% of inputs through one site (KF1, see known_findings.json): a failing case is attributed to KF1 only if a swap was observed in that run and the identical run with the H3 repair switch passes; anything else is a VIOLATION.",
+            "level_text": "Both indices of every captured op are compared with the running item counts. The pinned tree violates this on ~13% of inputs through one site (KF1, see known_findings.json): a failing case is attributed to KF1 only if a swap was observed in that run and the identical run with the H3 repair switch passes; anything else is a VIOLATION. Session 3: a stale carried index is matched to the known finding only if a frozen copy of the PINNED clean-up reproduces exactly the observed ops from the raw calls of the same run.",
             "level_note": "Verdicts are always taken with the repair switch off. Trusts the checker, hooks H2/H3 and the attribution rule; a defect that manifests only together with a swap AND disappears when the swapped pair's indices are recomputed would be absorbed by KF1."},
 })
 
@@ -38,12 +38,12 @@ PROPERTIES.update({
     "C08": {"category": "fault_enumeration",
             "anchor_files": ["src/algorithms/hook.rs", "src/algorithms/replace.rs", "src/algorithms/compact.rs", "src/algorithms/myers.rs", "src/algorithms/patience.rs", "src/algorithms/lcs.rs"],
             "technique": "recording DiffHook with injected failure at call k; enumeration of EVERY k for every input x 12 adapter stacks (owned and &mut, NoFinishHook nested) x hook with/without replace override; differential comparison of call histories between stacks",
-            "level_text": "For each input and adapter stack a clean run records the call history; then the run is repeated once for every call index k with that call returning Err(k). The monitor asserts: result is exactly Err(k), no call after the failing one, identical prefix, finish exactly once and last (never through NoFinishHook), forwarding wrappers transparent, default replace = delete+insert. Complete for all pairs over 3 letters up to length 4 (thorough 5); a second fault dimension (deadline expiring at check 0/1/2 AND a failing hook) is enumerated for pairs up to length 3 (4); huge inputs (LCS 4200x4100) get a clean run plus 5 failing indices; adapters are also driven by hand with scripts containing replace calls.",
+            "level_text": "For each input and adapter stack a clean run records the call history; then the run is repeated once for every call index k with that call returning Err(k). The monitor asserts: result is exactly Err(k), no call after the failing one, identical prefix, finish exactly once and last (never through NoFinishHook), forwarding wrappers transparent, default replace = delete+insert. Complete for all pairs over 3 letters up to length 4 (thorough 5); a second fault dimension (deadline expiring at check 0/1/2 AND a failing hook) is enumerated for pairs up to length 3 (4); huge inputs (LCS 4200x4100) get a clean run plus 5 failing indices; adapters are also driven by hand with scripts containing replace calls. Session 3: Replace adapters that completed another diff before (muted warm-up) must forward what a fresh one forwards; anchors behind gaps of up to 160 non-matching items.",
             "level_note": "Trusts the recording hook. The fault model is 'a hook call returns an error'; panicking hooks are not modelled."},
     "C10": {"category": "exploration",
             "anchor_files": ["src/algorithms/compact.rs", "src/algorithms/replace.rs", "src/types.rs"],
             "technique": "exhaustive enumeration of ALL valid edit scripts of all short pairs (plus random walks in the edit graph at non-zero offsets behind red-zone lookups) driven through Compact / Replace / Compact+Replace, checked by the offline op-list checker (validity, cost conservation, carried indices, normal form)",
-            "level_text": "The adapters are fed histories that no algorithm of the crate produces: every valid script (split equal runs, interleaved delete/insert runs) of every binary pair up to length 4 (thorough: 5, ternary up to 4 = 24 M scripts), every script under a non-transitive tolerance equality for pairs over 4 letters up to length 3 (4), random scripts of longer pairs, scripts next to runs of thousands of identical items and scripts with more than 65 536 calls. Output must be a valid script of the same pair with the same deleted/inserted totals; Replace alone keeps carried indices exact; both adapters give the C09 normal form.",
+            "level_text": "The adapters are fed histories that no algorithm of the crate produces: every valid script (split equal runs, interleaved delete/insert runs) of every binary pair up to length 4 (thorough: 5, ternary up to 4 = 24 M scripts), every script under a non-transitive tolerance equality for pairs over 4 letters up to length 3 (4), random scripts of longer pairs, scripts next to runs of thousands of identical items and scripts with more than 65 536 calls. Output must be a valid script of the same pair with the same deleted/inserted totals; Replace alone keeps carried indices exact; both adapters give the C09 normal form. Session 3: replace CALLS fed to the compaction stage for some adjacent delete/insert pairs, also next to other changes.",
             "level_note": "Trusts the script enumerator (its count is reported in the evidence) and the op-list checker."},
 })
 
@@ -59,37 +59,37 @@ PROPERTIES.update({
     "C04": {"category": "exploration",
             "anchor_files": ["src/text/mod.rs", "src/text/abstraction.rs", "src/iter.rs", "src/types.rs"],
             "technique": "offline checker over the change stream of real text diffs (byte-exact reconstruction of both inputs, index discipline) for 5 tokenizers x 3 algorithms x {str,[u8]} on generated hostile texts incl. invalid UTF-8 and token counts on both sides of the >100 switch",
-            "level_text": "Every change stream (iter_all_changes and per-op iter_changes), without deadline and with a deadline expiring at check 0/1/k, is replayed into two byte buffers that must equal the inputs exactly, with per-side indices counting from zero; texts up to 67 000 lines and distinct-token counts crossing 256..65 536. Inputs are generated from an atom pool covering every Unicode whitespace, CR/LF/CRLF mixes, missing final newline, multi-byte and emoji clusters and, for bytes, spliced invalid UTF-8; plus texts of 0..400 tokens.",
+            "level_text": "Every change stream (iter_all_changes and per-op iter_changes), without deadline and with a deadline expiring at check 0/1/k, is replayed into two byte buffers that must equal the inputs exactly, with per-side indices counting from zero; texts up to 67 000 lines and distinct-token counts crossing 256..65 536. Inputs are generated from an atom pool covering every Unicode whitespace, CR/LF/CRLF mixes, missing final newline, multi-byte and emoji clusters and, for bytes, spliced invalid UTF-8; plus texts of 0..400 tokens. Session 3: iterator-protocol battery (fold / nth / skip / last / count / find / take ... after a prefix of next() calls) on iter_all_changes and iter_changes; value-shaped line contents; small-stack stage.",
             "level_note": "Sampling only (no exhaustive part); trusts the generator's coverage of the atom pool, reported through samples and counters."},
     "C06": {"category": "exploration",
             "anchor_files": ["src/text/abstraction.rs"],
             "technique": "differential check of all tokenizers against independent byte-level reference splitters (own Unicode White_Space table, std utf8_chunks for validity) + direct shape assertions; exhaustive over strings of a 12-atom hostile alphabet, sampled over generated texts incl. invalid UTF-8; str vs [u8] equality on valid UTF-8",
-            "level_text": "Each of the 6 tokenizers on str and [u8] is checked for: non-empty tokens that are consecutive slices of the input (lossless), equality with a reference splitter written over raw bytes (lines, lines-and-newlines, words, chars), direct shape assertions, and str/[u8] agreement on valid UTF-8. Complete for every string of up to 4 (thorough 6) atoms from {a, SP, LF, CR, e-acute, NBSP, U+2028, VT, 0xFF, truncated E2 82, NEL, TAB}; sampled on generated texts with every Unicode blank and on 8-300 KB inputs with rare characters placed late. A further stage runs the str half against similar built WITHOUT its `bytes` feature; a family places CR LF / multi-byte / invalid sequences across every power-of-two offset from 4096 to 131072.",
+            "level_text": "Each of the 6 tokenizers on str and [u8] is checked for: non-empty tokens that are consecutive slices of the input (lossless), equality with a reference splitter written over raw bytes (lines, lines-and-newlines, words, chars), direct shape assertions, and str/[u8] agreement on valid UTF-8. Complete for every string of up to 4 (thorough 6) atoms from {a, SP, LF, CR, e-acute, NBSP, U+2028, VT, 0xFF, truncated E2 82, NEL, TAB}; sampled on generated texts with every Unicode blank and on 8-300 KB inputs with rare characters placed late. A further stage runs the str half against similar built WITHOUT its `bytes` feature; a family places CR LF / multi-byte / invalid sequences across every power-of-two offset from 4096 to 131072. Session 3: one token of exactly 2^8 / 2^15 / 2^16 / 2^17 +- 2 and k*(2^16-1) bytes; 100 000..400 000 lines through every tokenizer in an unoptimised build on 2 MiB stacks (small-stack stage).",
             "level_note": "For invalid UTF-8 the reference assumes the 'maximal subpart' chunking of std::str::Utf8Chunks (what bstr documents too). Unicode word / grapheme tokenizers are only required to be lossless and non-empty, as the property states."},
     "C12": {"category": "exploration",
             "anchor_files": ["src/common.rs", "src/algorithms/capture.rs", "src/text/mod.rs"],
             "technique": "differential check of group_diff_ops / Capture::into_grouped_ops / TextDiff::grouped_ops against an independent reference grouping (clusters separated by equal runs > 2n) plus direct assertions (contiguity, context <= n, changes preserved once and in order), for every n in a list that includes 0 and values around usize::MAX/2",
-            "level_text": "Random valid alternating op lists with independent non-zero offsets and all small exhaustive op lists are grouped for 14 radii (0..7, 13, 100, MAX/2, MAX/2+1, MAX-1, MAX) in both checked and release arithmetic, TextDiff::grouped_ops / UnifiedDiff::iter_hunks on real diffs (also after a radius change on one formatter, also at 2^23 tokens); the result must equal an independently formulated reference after dropping zero-length Equal placeholders, and satisfy the property's clauses directly.",
+            "level_text": "Random valid alternating op lists with independent non-zero offsets and all small exhaustive op lists are grouped for 14 radii (0..7, 13, 100, MAX/2, MAX/2+1, MAX-1, MAX) in both checked and release arithmetic, TextDiff::grouped_ops / UnifiedDiff::iter_hunks on real diffs (also after a radius change on one formatter, also at 2^23 tokens); the result must equal an independently formulated reference after dropping zero-length Equal placeholders, and satisfy the property's clauses directly. Session 3: non-alternating lists (a change directly behind a change), every radius 0..6 against every pair of texts of <= 4 tokens, options set after the radius, iterator battery on iter_hunks, 100 000..300 000 ops on 2 MiB stacks (small-stack stage).",
             "level_note": "Zero-length Equal placeholders (n = 0) are tolerated as the statement allows '0 items of context'."},
     "C13": {"category": "exploration",
             "anchor_files": ["src/iter.rs", "src/types.rs", "src/text/mod.rs", "src/udiff.rs"],
             "technique": "differential check of iter_changes / iter_slices / apply_to_hook round trip (owned and &mut capture) against a reference expansion, exhaustive over op kind x offsets x lengths on distinguishable sequences and sampled; whole-diff and hunk iteration compared with per-op expansion on real diffs",
-            "level_text": "Every op kind with every in-bounds offset/length combination up to 4 over sequences whose old and new values differ at every index (so a side mix-up is visible), plus 150k random ops, each also through the standard iterator adaptors (nth after next, step_by, skip, count, last, size_hint); TextDiff::iter_all_changes, TextDiff::iter_changes and UnifiedDiffHunk::iter_changes are compared with the reference expansion of the ops on real diffs.",
+            "level_text": "Every op kind with every in-bounds offset/length combination up to 4 over sequences whose old and new values differ at every index (so a side mix-up is visible), plus 150k random ops, each also through the standard iterator adaptors (nth after next, step_by, skip, count, last, size_hint); TextDiff::iter_all_changes, TextDiff::iter_changes and UnifiedDiffHunk::iter_changes are compared with the reference expansion of the ops on real diffs. Session 3: ops based at usize::MAX-8, 2^63, 2^32 ... through user-defined Index types; captures that completed a diff before; 100 000..300 000 consecutive empty ops in a caller-built hunk on 2 MiB stacks in an unoptimised build (small-stack stage).",
             "level_note": "Trusts the 20-line reference expansion."},
     "C15": {"category": "exploration",
             "anchor_files": ["src/algorithms/patience.rs", "src/algorithms/utils.rs"],
             "technique": "differential check of Patience's Equal pairs against an independent anchor model (items unique on both sides; LIS of their orders), raw and captured, exhaustive over short sequences and sampled over inputs built to have repeated backgrounds with crossing unique items",
-            "level_text": "Complete for all pairs over 3 letters up to length 6 (thorough 7) and over 4 letters up to length 5 (6); 120k (2.5M) random inputs with letters repeated 1..5 times (odd and even counts) plus scattered unique items, incl. sub-ranges, heterogeneous old/new item types with different Hash implementations, >100-token text diffs, and mostly unrelated sequences of 3500..6000 (thorough 12 000) items sharing a few landmarks. The number of both-unique items reported Equal must reach the LIS bound.",
+            "level_text": "Complete for all pairs over 3 letters up to length 6 (thorough 7) and over 4 letters up to length 5 (6); 120k (2.5M) random inputs with letters repeated 1..5 times (odd and even counts) plus scattered unique items, incl. sub-ranges, heterogeneous old/new item types with different Hash implementations, >100-token text diffs, and mostly unrelated sequences of 3500..6000 (thorough 12 000) items sharing a few landmarks. The number of both-unique items reported Equal must reach the LIS bound. Session 3: a block of 20..70 unique common items moved across 4..40 shorter runs of ordered unique common items separated by one-sided noise.",
             "level_note": "Trusts the anchor model (hash-map counting + LCS DP)."},
     "C19": {"category": "exploration",
             "anchor_files": ["src/algorithms/myers.rs", "src/algorithms/patience.rs", "src/algorithms/utils.rs"],
             "technique": "counting monitor: items whose PartialEq counts calls; comparisons of each run are checked against 8*(N+M+1)*(D+1) with D taken from the script reported by the same run; structured large-input families (near-identical, block move, periodic, doubled, truncated, small alphabet)",
-            "level_text": "A complexity claim cannot be proved by running; it can be refuted on the families and sizes that are run (structured families up to 4000 items quick / 20 000 thorough, near-identical inputs of 100 000 .. 1 000 000 items with two edits far apart, nested-uniqueness inputs). Decided on counted comparisons only. Observed maxima (0.8 Myers, 1.5 Patience) are reported; the factor 8 leaves 5x head-room while any quadratic regression on near-identical inputs of >= 1000 items exceeds it by an order of magnitude.",
+            "level_text": "A complexity claim cannot be proved by running; it can be refuted on the families and sizes that are run (structured families up to 4000 items quick / 20 000 thorough, near-identical inputs of 100 000 .. 1 000 000 items with two edits far apart, nested-uniqueness inputs). Decided on counted comparisons only. Observed maxima (0.8 Myers, 1.5 Patience) are reported; the factor 8 leaves 5x head-room while any quadratic regression on near-identical inputs of >= 1000 items exceeds it by an order of magnitude. Session 3: item types of one byte; items with a legal three-bucket Hash through the generic entry points (Myers needs no hashing).",
             "level_note": "Work that is not an element comparison (hashing, allocation) is not counted."},
     "C20": {"category": "exploration",
             "anchor_files": ["src/algorithms/utils.rs", "src/algorithms/patience.rs", "src/text/mod.rs", "src/text/abstraction.rs"],
             "technique": "differential / metamorphic checks: repeated calls (fresh hash seeds), other threads, separate processes (result digests compared by the driver), order-preserving injective relabellings (Strings, u64), constant-hash items, str vs [u8] text diffs; hook H4 reports how often the hash iteration order seen by unique() actually varied",
-            "level_text": "Schedules here mean threads and hasher seeds: the same inputs are diffed 4x in one thread, on 3 other threads, and again in a second process (thorough: more), and all results/digests must agree; relabelled and hash-colliding inputs must give identical ops; sequences of up to 70 000 mostly unique items with swapped blocks are included. The evidence states for how many Patience inputs the pre-sort hash order differed between calls, i.e. the sort really mattered in what was observed. Also: the crate's own integer mapping (IdentifyDistinct) as an order-preserving relabelling, and relabelling to line tokens of text diffs (str and a user-defined case-insensitive type).",
+            "level_text": "Schedules here mean threads and hasher seeds: the same inputs are diffed 4x in one thread, on 3 other threads, and again in a second process (thorough: more), and all results/digests must agree; relabelled and hash-colliding inputs must give identical ops; sequences of up to 70 000 mostly unique items with swapped blocks are included. The evidence states for how many Patience inputs the pre-sort hash order differed between calls, i.e. the sort really mattered in what was observed. Also: the crate's own integer mapping (IdentifyDistinct) as an order-preserving relabelling, and relabelling to line tokens of text diffs (str and a user-defined case-insensitive type). Session 3: only the new side relabelled to another item type with another Hash; 2..4 threads diffing at the same moment (LCS tables of millions of cells) must each get what the call returns alone.",
             "level_note": "Equality for all hasher seeds is sampled over the seeds the runs happened to draw."},
 })
 
@@ -97,22 +97,22 @@ PROPERTIES.update({
     "C05": {"category": "exploration",
             "anchor_files": ["src/udiff.rs", "src/common.rs", "src/text/mod.rs", "src/types.rs"],
             "technique": "strict unified-diff parser/applier (R-PATCH) over the bytes written by to_writer, differential checks writer vs Display vs a short-writing sink vs udiff::unified_diff, exhaustive small line texts + generated hostile texts; failures attributed to known finding KF1 only via the H3 swap-repair switch",
-            "level_text": "Every rendering (radius 0..5, > usize::MAX/2 and MAX; header on/off; hint on/off; str and [u8]) is parsed from bytes and applied strictly: header counts == body counts, stated starts == true positions, ordered non-overlapping hunks, every context/'-' line byte-equal to the old text, marker exactly on unterminated lines, >= 1 change and <= radius edge context per hunk, deletions before insertions, result == new text; equal inputs render as nothing. Complete for all pairs of texts of up to 3 (thorough 4) lines over {a LF, b LF, a CRLF, a CR} with optional missing final newline; sampled over generated texts incl. invalid UTF-8, long texts with many hunks at multi-digit line numbers, renderings above 64 KiB, hunk-level API and re-used formatter objects. Header failures caused by the listed known finding are matched only if a swap was observed and the identical rendering with the repair switch passes and differs in '@@' lines only.",
+            "level_text": "Every rendering (radius 0..5, > usize::MAX/2 and MAX; header on/off; hint on/off; str and [u8]) is parsed from bytes and applied strictly: header counts == body counts, stated starts == true positions, ordered non-overlapping hunks, every context/'-' line byte-equal to the old text, marker exactly on unterminated lines, >= 1 change and <= radius edge context per hunk, deletions before insertions, result == new text; equal inputs render as nothing. Complete for all pairs of texts of up to 3 (thorough 4) lines over {a LF, b LF, a CRLF, a CR} with optional missing final newline; sampled over generated texts incl. invalid UTF-8, long texts with many hunks at multi-digit line numbers, renderings above 64 KiB, hunk-level API and re-used formatter objects. Header failures caused by the listed known finding are matched only if a swap was observed and the identical rendering with the repair switch passes and differs in '@@' lines only. Session 3: setter sequences on one formatter (radius / hint / header in any order, repeated, with renderings in between) against a fresh formatter; caller-supplied line items with interior unterminated items applied strictly; diff-syntax look-alike lines; small-stack stage.",
             "level_note": "Trusts the 250-line parser/applier and hook H3. With the hint disabled only applicability modulo the final newline is checked."},
     "C14": {"category": "exploration",
             "anchor_files": ["src/text/mod.rs", "src/algorithms/utils.rs", "src/common.rs"],
             "technique": "differential check: ops of TextDiff for 6 tokenizer entry points vs capture_diff_slices over independently obtained tokens, at token counts on both sides of the >100 switch; algorithm()/newline_terminated() under all overrides; IdentifyDistinct ids vs item equality (all pairs, within and across sides) and diff-through-lookups vs direct diff at non-zero offsets for 5 integer types",
-            "level_text": "Texts of 0,1,50,99,100,101,102,150,400 tokens (vocabulary 3/20/1000, new-only repeated items included) through lines/words/chars/unicode words/graphemes/diff_slices x 3 algorithms x str/[u8] x override none/true/false; IdentifyDistinct checked pairwise on 20k (400k) random inputs with non-zero sub-range offsets; long texts up to 67 000 lines, distinct-token counts crossing 256..65 536 with both sides below the boundary, and Lcs text diffs far above 4096 x 4096 tokens (edits confined to a window). Every text case also runs as a user-defined DiffableStr (OddStr: case-insensitive Eq, U+2028 line ends, character-indexed) and through the one-call constructors with String / Cow / Vec<u8> inputs.",
+            "level_text": "Texts of 0,1,50,99,100,101,102,150,400 tokens (vocabulary 3/20/1000, new-only repeated items included) through lines/words/chars/unicode words/graphemes/diff_slices x 3 algorithms x str/[u8] x override none/true/false; IdentifyDistinct checked pairwise on 20k (400k) random inputs with non-zero sub-range offsets; long texts up to 67 000 lines, distinct-token counts crossing 256..65 536 with both sides below the boundary, and Lcs text diffs far above 4096 x 4096 tokens (edits confined to a window). Every text case also runs as a user-defined DiffableStr (OddStr: case-insensitive Eq, U+2028 line ends, character-indexed) and through the one-call constructors with String / Cow / Vec<u8> inputs. Session 3: more than 10 000 raw edit calls (6000..7500 hunks; LCS block of 10 100..13 000 lines); grapheme clusters sharing their first four bytes.",
             "level_note": "Tokens are taken from the public tokenizers (validated separately by C06)."},
     "C16": {"category": "fault_enumeration",
             "anchor_files": ["src/text/inline.rs", "src/text/utils.rs", "src/text/mod.rs"],
             "technique": "offline checker over InlineChange streams (tags/indices vs plain expansion, segments rebuild the line, emphasis only in Replace-derived Delete/Insert and never over CR/LF, missing_newline flag), with the second-level diff's deadline absent, default, really expired and virtually expiring at check 0..3; second build without the `unicode` feature in the thorough tier",
-            "level_text": "Line pairs biased to word-level edits (so the ratio gates are passed and emphasis is produced: ~150k emphasised segments per quick run), mixed terminators, lines split in two, invalid UTF-8 in the [u8] variant; every op of every diff is expanded under 4 deadline regimes; lines with exactly 255..4097 word tokens and lines with 70 000 distinct words are included. Every valid-UTF-8 case also runs as a user-defined DiffableStr (OddStr) whose len/slice count characters and which knows a further line terminator.",
+            "level_text": "Line pairs biased to word-level edits (so the ratio gates are passed and emphasis is produced: ~150k emphasised segments per quick run), mixed terminators, lines split in two, invalid UTF-8 in the [u8] variant; every op of every diff is expanded under 4 deadline regimes; lines with exactly 255..4097 word tokens and lines with 70 000 distinct words are included. Every valid-UTF-8 case also runs as a user-defined DiffableStr (OddStr) whose len/slice count characters and which knows a further line terminator. Session 3: characters whose UTF-8 encodings share a byte prefix / suffix, any scalar value; iterator battery on the inline iterator.",
             "level_note": "The default 500 ms deadline of iter_inline_changes is real time: whether it expires is load dependent, the asserted properties are not."},
     "C17": {"category": "exploration",
             "anchor_files": ["src/utils.rs", "src/text/abstraction.rs", "src/types.rs"],
             "technique": "offline checker over TextDiffRemapper output (tags vs slice-wise expansion, slice == concatenation of tokens, pointer-range check that the slice is the substring of the original at the cumulative offset, reconstruction of both texts) and over the one-call helpers utils::diff_*, incl. empty texts and invalid UTF-8",
-            "level_text": "6k (120k) generated text pairs x 5 tokenizers x 3 algorithms x str/[u8], both remapper constructors, slice_old/slice_new; the remapper is also given equal COPIES of the texts (other allocations); helpers diff_lines/words/chars/unicode_words/graphemes/slices must reconstruct, never return an empty slice, never panic (('', '') included in 1/23 of the cases).",
+            "level_text": "6k (120k) generated text pairs x 5 tokenizers x 3 algorithms x str/[u8], both remapper constructors, slice_old/slice_new; the remapper is also given equal COPIES of the texts (other allocations); helpers diff_lines/words/chars/unicode_words/graphemes/slices must reconstruct, never return an empty slice, never panic (('', '') included in 1/23 of the cases). Session 3: caller-supplied tokenizations with EMPTY tokens and as many tokens as bytes; iterator battery on iter_slices.",
             "level_note": "Sampling only."},
     "C18": {"category": "exploration",
             "anchor_files": ["src/text/mod.rs", "src/text/utils.rs", "src/common.rs"],
